@@ -7,6 +7,7 @@ import PaneModel.Model.Order
 import PaneModel.Model.Pane
 import PaneModel.Lemmas.RoundTripDefs
 import PaneModel.Model.IO
+import PaneModel.Model.Broadcast
 /-!
 # Line-protocol driver: one JSON scenario per input line, one JSON result per output line.
 Run with `lake env lean --run Driver.lean` (or as the compiled `driver` executable).
@@ -881,6 +882,19 @@ def runOp (sc : Scen) (j : Json) : P Json := do
     let r := Cache.lruRun f ({ maxsize := maxsize, order := [] } : Cache.Lru Nat Nat) keys
     pure (Json.mkObj [("results", .arr (r.2.map fun (v : Nat) => (Json.num v : Json)).toArray),
                       ("order", .arr ((Cache.lruKeys r.1).map fun (k : Nat) => (Json.num k : Json)).toArray)])
+  | "bcast" =>
+    -- shapes for the array conditions: numpy's rule, and the fallback as the source now reads (facts)
+    let shapes ← (← jarr (← jfield j "shapes")).toList.mapM fun s => do (← jarr s).toList.mapM jnat
+    let optList : Option (List Nat) → Json := fun o => match o with
+      | some l => .arr (l.map fun (n : Nat) => (Json.num n : Json)).toArray
+      | none => .null
+    let b := Broadcast.broadcast shapes
+    let fb := Broadcast.fallback (Facts.broadcastRule.getD "") (Facts.broadcastReverseBack.getD false) shapes
+    let base := [("broadcast", optList b), ("fallback", optList fb), ("is", Json.bool b.isSome), ("fallback_is", Json.bool fb.isSome)]
+    let conds := match shapes with
+      | [v, s] => [("cond_broadcastable", Json.bool (Broadcast.broadcastableHolds v s)), ("cond_shape", Json.bool (Broadcast.shapeHolds v s))]
+      | _ => []
+    pure (Json.mkObj (base ++ conds))
   | "reach" =>
     -- `into_data(val[, ty], custom=H)` with containers of undeclared element type: the handlers the container converters
     -- were built with answer for the elements' runtime types (`Ext.elemHook`)
